@@ -20,6 +20,7 @@ fn extreme_leaf() -> gen::VS {
         2 => any::<i64>().prop_map(gen::j),
         2 => any::<u64>().prop_map(|b| { let x = f64::from_bits(b); if x.is_finite() { gen::f(x) } else { gen::f(-1e104) } }),
         3 => gen::texts(8).prop_map(gen::j),
+        1 => gen::long_texts().prop_map(gen::j),
         2 => gen::num_strings().prop_map(gen::j),
         2 => select(vec!["héllo", "日本語", "a😀b", "𝄞", "", "\u{0301}", "\u{FEFF}", "-9223372036854775808", "9223372036854775808", "a.-9223372036854775808", "0.-1.9223372036854775807", "\\", "a\\", ".", "..", "1e400", "-1e400", "0x", "Infinity"]).prop_map(|s| json!(s)),
         2 => gen::small_ints(),
@@ -394,7 +395,7 @@ fn check_cli(case: &Value, obs: &mut Obs) -> Result<(), String> {
     let out = cli::run(&bin, &rule_text, &channel)?;
     obs.evals += 1;
     if out.timed_out {
-        return Err(format!("[{}] the jsonlogic command did not finish within 30 s for {}", profile, fmt_case(rule, data)));
+        return Err(format!("[{}] the jsonlogic command did not finish within 180 s (after a first attempt exceeded 30 s) for {}", profile, fmt_case(rule, data)));
     }
     let stderr = String::from_utf8_lossy(&out.stderr).to_string();
     match out.code {
@@ -441,6 +442,21 @@ fn fixed_cli() -> Vec<Value> {
     for (r, d) in cases {
         for rel in [false, true] {
             out.push(json!({"rule": r, "data": d, "release": rel, "channel": 0}));
+        }
+    }
+    // documents at the depth limit of the text interface, through the real process (8 MiB main-thread stack)
+    let fill = json!(1);
+    for op in ["!", "cat", "if", "map", "reduce", "var", "+", "merge", "all", "log"] {
+        for rel in [false, true] {
+            out.push(json!({"rule": nest(op, 63, false, json!(1), true, &fill), "data": {"a": 1}, "release": rel, "channel": 1}));
+        }
+    }
+    for object in [false, true] {
+        let deep = deep_value(120, object, json!(1));
+        let data = json!({"needle": deep, "hay": [deep_value(120, object, json!(2)), deep_value(120, object, json!(1.0))]});
+        for rule in [json!({"in": [{"var": "needle"}, {"var": "hay"}]}), json!({"==": [{"var": "needle"}, {"var": "hay.1"}]}), json!({"cat": [{"var": "hay"}]}), json!({"var": ""})] {
+            out.push(json!({"rule": rule, "data": data, "release": true, "channel": 2}));
+            out.push(json!({"rule": rule, "data": data, "release": false, "channel": 0}));
         }
     }
     out
@@ -536,7 +552,7 @@ pub fn property() -> Property {
             },
             Sub {
                 name: "cli_known_corners",
-                about: "12 corner inputs (i64::MIN indices and lengths, overflowing products feeding var, i64::MIN % -1, ...) through the dev and release jsonlogic binaries.",
+                about: "12 corner inputs (i64::MIN indices and lengths, overflowing products feeding var, i64::MIN % -1, ...), ten 63-level operator towers and 120-deep equal containers met by in / == / cat / var, through the dev and release jsonlogic binaries.",
                 nontrivial: "an extreme operand.",
                 strategy: None,
                 fixed: Some(fixed_cli),
